@@ -109,25 +109,30 @@ def coeff_vector(I, name, n):
     return ListV([I.D.sym('%s[%d]' % (name, i)) for i in range(n)])
 
 
-def mix_opaque(I):
-    """make pmutt.mixture._get_mix_quantity an uninterpreted vector whose
-    identity includes the method name, the temperature it was given and every
-    forwarded keyword (so a dropped or altered argument changes the atom)."""
-    def handler(I_, fr, args, kwargs, node):
-        kw = dict(kwargs)
-        mm = kw.pop('misc_models', args[0] if args else None)
-        method = kw.pop('method_name', args[1] if len(args) > 1 else None)
-        for k in ('raise_error', 'raise_warning', 'default_value'):
-            kw.pop(k, None)
-        if mm is None:
-            return ListV([C(0)])
-        parts = []
-        for k in sorted(kw):
-            v = kw[k]
-            parts.append('%s=%s' % (k, repr(v)))
-        name = 'MIX<%s|%s>' % (method, ','.join(parts))
-        return Elem(I_.D.sym(name))
-    I.opaque_funcs['pmutt.mixture._get_mix_quantity'] = handler
+MIX_QUANTITIES = ('get_q', 'get_CvoR', 'get_CpoR', 'get_UoRT', 'get_HoRT', 'get_SoR', 'get_FoRT', 'get_GoRT')
+
+
+def attached_models(I, k=1, params=('T', 'P'), prefix='m'):
+    """k uninterpreted models for a species' misc_models: every getter returns an atom naming the model, the
+    quantity and each argument it was handed (a dropped or altered argument changes the atom).  The package's own
+    aggregation over misc_models is interpreted as it stands - whichever private helper performs it."""
+    def twin(h, s_):
+        def f(I_, obj, args, kwargs):
+            return obj.opaque_methods[h](I_, obj, [], kwargs) - obj.opaque_methods[s_](I_, obj, [], kwargs)
+        return f
+    out = []
+    for j in range(k):
+        out.append(opaque_obj(I, '%s%d' % (prefix, j), {m: tuple(params) for m in MIX_QUANTITIES},
+                              rewrite={'get_GoRT': twin('get_HoRT', 'get_SoR'), 'get_FoRT': twin('get_UoRT', 'get_SoR')}))
+    return ListV(out)
+
+
+def attached_sum(I, models, q, **kw):
+    """sum over the attached models of get_<q> with exactly these arguments"""
+    tot = C(0)
+    for m_ in (models.items if isinstance(models, ListV) else models):
+        tot = tot + m_.opaque_methods['get_' + q](I, m_, [], dict(kw))
+    return tot
 
 
 def sel_opaque(obj):
